@@ -60,6 +60,16 @@ fn main() {
                 emit(&mut out, synchist::gen_fault(seed, id, maxlen));
             }
         }
+        "orders" => {
+            for id in first..first + count {
+                emit(&mut out, synchist::gen_orders(seed, id));
+            }
+        }
+        "orders-exec" => {
+            let p = arg(&args, "--script").expect("--script");
+            let s: Value = serde_json::from_str(&std::fs::read_to_string(p).unwrap()).unwrap();
+            emit(&mut out, synchist::run_orders(&s));
+        }
         "synchist-exec" => {
             let p = arg(&args, "--script").expect("--script");
             let s: Value = serde_json::from_str(&std::fs::read_to_string(p).unwrap()).unwrap();
